@@ -451,49 +451,31 @@ example : ∃ s, ([], s) ∈ (init true).sc := ⟨bestRouteV1, by simp [init]⟩
 
 /-! ### MTU: accepted ⇒ sendable -/
 
-/-- the arithmetic of `sendPacket` never fails when the MTU exceeds the largest overhead -/
-theorem sendOutcome_ok (mtu : Nat) (frag inFaceInd hasToken hasMark : Bool) (len : Nat)
-    (h : maxOverhead < mtu) : sendOutcome mtu frag inFaceInd hasToken hasMark len ≠ .panic := by
+/-- with fragmentation on, an MTU above the largest overhead and a forwarder-size PIT token, a
+    packet is never dropped: it leaves as at least one frame -/
+theorem sendOutcome_ok (mtu tokLen : Nat) (inFaceInd hasMark : Bool) (wholeLen len : Nat)
+    (h : maxOverhead < mtu) (ht : tokLen ≤ 6) (hl : 0 < len) :
+    ∃ n, 0 < n ∧ sendOutcome mtu true tokLen inFaceInd hasMark wholeLen len = .frames n := by
   unfold sendOutcome
-  have ho : overhead frag inFaceInd hasToken hasMark ≤ maxOverhead := by
+  have ho : overhead tokLen inFaceInd hasMark ≤ maxOverhead := by
     unfold maxOverhead overhead
-    cases frag <;> cases inFaceInd <;> cases hasToken <;> cases hasMark <;> simp
-  simp only []
-  split
-  · simp
-  · split
-    · simp
-    · split
-      · rename_i h3; exfalso; omega
-      · simp
-
-/-- with fragmentation on, a packet is always emitted as at least one frame -/
-theorem sendOutcome_frames (mtu : Nat) (inFaceInd hasToken hasMark : Bool) (len : Nat)
-    (h : maxOverhead < mtu) (hl : 0 < len) :
-    ∃ n, 0 < n ∧ sendOutcome mtu true inFaceInd hasToken hasMark len = .frames n := by
-  unfold sendOutcome
-  have ho : overhead true inFaceInd hasToken hasMark ≤ maxOverhead := by
-    unfold maxOverhead overhead
-    cases inFaceInd <;> cases hasToken <;> cases hasMark <;> simp
-  simp only []
+    cases inFaceInd <;> cases hasMark <;> simp <;> split <;> omega
   split
   · exact ⟨1, by omega, rfl⟩
   · simp only [Bool.not_true, Bool.false_eq_true, ↓reduceIte]
     split
-    · rename_i h3; exfalso; omega
-    · rename_i h2 h3
-      refine ⟨_, ?_, rfl⟩
-      have : 0 < ((mtu : Int) - (overhead true inFaceInd hasToken hasMark : Int)).toNat := by omega
-      exact Nat.div_pos (by omega) this
+    · omega
+    · refine ⟨_, ?_, rfl⟩
+      exact Nat.div_pos (by omega) (by omega)
 
-/-- `mtu_accepted_implies_sendable`: an MTU that faces/update accepts (status 200) leaves the face
-    with an MTU on which `sendPacket` cannot divide by zero or allocate negatively, whatever the
-    packet size, PIT token, congestion mark and link-service options -/
+/-- `mtu_accepted_implies_sendable`: an MTU that faces/update accepts (status 200) is at least
+    `minMtu`, and on the resulting MTU `sendPacket` emits every packet (fragmentation on, PIT token
+    of forwarder size, any congestion mark / IncomingFaceId setting) as ≥ 1 frame -/
 theorem mtu_accepted_implies_sendable (st : St) (inFace : Nat) (name : Name) (a : Args) (m : Nat)
     (hm : a.mtu = some m) (st' : St) (echo : Args)
     (h : faceUpdate st inFace name (.args a) = (st', .ctrl 200 echo)) :
-    minMtu ≤ m ∧ ∀ frag ifi tok mark len,
-      sendOutcome (if m > maxPacket then maxPacket else m) frag ifi tok mark len ≠ .panic := by
+    minMtu ≤ m ∧ ∀ tokLen ifi mark wholeLen len, tokLen ≤ 6 → 0 < len →
+      ∃ n, 0 < n ∧ sendOutcome (if m > maxPacket then maxPacket else m) true tokLen ifi mark wholeLen len = .frames n := by
   have hmin : minMtu ≤ m := by
     unfold faceUpdate at h
     by_cases hp : hasParams name = true
@@ -512,8 +494,8 @@ theorem mtu_accepted_implies_sendable (st : St) (inFace : Nat) (name : Name) (a 
             simpa [mtuOk, hm] using this
     · simp [hp, r400] at h
   refine ⟨hmin, ?_⟩
-  intro frag ifi tok mark len
-  apply sendOutcome_ok
+  intro tokLen ifi mark wholeLen len ht hl
+  apply sendOutcome_ok _ _ _ _ _ _ _ ht hl
   unfold minMtu at hmin
   unfold maxOverhead overhead maxPacket
   simp
@@ -540,15 +522,17 @@ theorem usable_history (lh : Bool) (h : List Input) : usable (tablesOf (runHisto
     exact hcu
 
 /-- every strategy ever installed through management is one the forwarding threads instantiate
-    (F-17e) and every face can send (F-17b), after any history -/
+    (F-17e), every face can send (F-17b) and the CS capacity is a non-negative int (F-17c), after
+    any history -/
 theorem history_strategies_instantiated_faces_sendable (lh : Bool) (h : List Input) :
     (∀ e ∈ (runHistory (init lh) h).sc, instantiated e.2 = true) ∧
-    (∀ f ∈ (runHistory (init lh) h).faces, ∀ frag ifi tok mark len, sendOutcome f.mtu frag ifi tok mark len ≠ .panic) ∧
+    (∀ f ∈ (runHistory (init lh) h).faces, ∀ tokLen ifi mark wholeLen len, tokLen ≤ 6 → 0 < len →
+      ∃ n, 0 < n ∧ sendOutcome f.mtu true tokLen ifi mark wholeLen len = .frames n) ∧
     0 ≤ (runHistory (init lh) h).cs := by
   have := (usable_iff _).1 (usable_history lh h)
   refine ⟨this.1, ?_, this.2.2⟩
-  intro f hf frag ifi tok mark len
-  exact sendOutcome_ok _ _ _ _ _ _ (by have := this.2.1 f hf; simpa [specMaxOverhead, maxOverhead, overhead] using this)
+  intro f hf tokLen ifi mark wholeLen len ht hl
+  exact sendOutcome_ok _ _ _ _ _ _ (by have := this.2.1 f hf; simpa [specMaxOverhead, maxOverhead, overhead] using this) ht hl
 
 /-! ### datasets -/
 
